@@ -24,7 +24,7 @@ NPART = 64
 
 RULE = ('streams = EHLO, 1..2 transactions (MAIL, RCPT x1..2, DATA, body in {empty, x, dot-stuffed, '
         'command-looking lines, body + lone dot line behind it, over the SIZE limit}), optional RSET/NOOP '
-        'between, QUIT or EOF, SIZE limit off/on; each explored under all segmentations (continuation-merged '
+        'between, QUIT or EOF (single-transaction streams also: bytes behind QUIT, EOF in the middle of a line), SIZE limit off/on; each explored under all segmentations (continuation-merged '
         're-execution of the real Server; a state is one recv() call keyed by bytes consumed, output so far '
         'and the canonicalised Python frames of the continuation).  Non-trivial = the stream pipelines more than '
         'one line per segment in at least one explored segmentation (all do) and contains a DATA phase.')
@@ -67,6 +67,10 @@ def all_streams():
                 for n1 in (1, 2):
                     t1 = transaction(1, n1, b1)
                     out.append({'size': size, 'stream': b'EHLO c\r\n' + t1 + end, 'ntx': 1, 'desc': [b1, n1]})
+                    if n1 == 1 and end:
+                        # bytes behind QUIT, and a stream that ends in the middle of a line (the peer went away)
+                        for tail in (b'QUIT\r\nNOOP\r\n', b'NOOP\r\nNOO', b'RSET\r\nQUIT'):
+                            out.append({'size': size, 'stream': b'EHLO c\r\n' + t1 + tail, 'ntx': 1, 'desc': [b1, n1, b2s(tail)]})
                     for between in (b'', b'RSET\r\n', b'NOOP\r\n', b'  NOOP  \r\n \r\n'):
                         for b2 in BODIES:
                             t2 = transaction(2, 1, b2)
